@@ -198,7 +198,7 @@ def steady_state_transport_solver(
 
         tfftp[0, msk] = tfftq0[msk] * Kzinv / eigval
         tfftp[:, 0, 0] = p000 - tfftq0[0, 0] * Kzinv * h
-        tfftq[:, msk] = tfftq0[msk] * np.exp(-eigval * h)
+        tfftq[:, msk] = tfftq0[msk] * np.exp(-eigval * h[:, np.newaxis])
         tfftp[:, msk] = tfftq[:, msk] * Kzinv / eigval
 
     else:
